@@ -787,7 +787,8 @@ def Declarator.genK (asC : Bool) (o : GenOpts) : Declarator → Str
         | none => match name with | some n => sp " " ++ n | none => [])
   | .wrap ps inner =>
     (if o.forcePtr then sp " *" else if o.asScalar then [] else (ps.map (Ptr.genK asC o)).flatten)
-    ++ sp " (" ++ inner.genK asC o ++ sp ")"
+    ++ (let i := inner.genK asC o
+        if i.isEmpty then [] else sp " (" ++ i ++ sp ")")   -- empty parentheses are removed again
 
 /-- is the `const` of the base type printed: `asgn_value` drops it only from a declaration
     without indirection, `remove_const` always -/
